@@ -168,6 +168,7 @@ type Spec struct {
 	Monotone       bool // displayed rows/cells only grow and values only grow: intermediate renders cannot leave anything but padding behind
 	HasNeg         bool
 	NoFormat       bool
+	All            bool // histo --all: after the screen, "Full Table:" with every row and the summary once more (snapshot runs only)
 }
 
 // ---------------------------------------------------------------- keys
@@ -703,6 +704,7 @@ func genSpec(r *run.Rand, thorough bool, known knownFn) *Spec {
 			s.CmdArgs = append(s.CmdArgs, "--sort", v)
 		}
 		s.Monotone = !ag.hasNeg && s.N >= len(ag.histo)
+		s.All = r.Intn(3) == 0
 	case "table", "heatmap", "spark":
 		s.N = pickInt(r, []int{1, 3, 20, 20, 200})
 		if s.N != 20 || r.Bool() {
@@ -1062,6 +1064,9 @@ func (s *Spec) baseArgs() []string {
 func (s *Spec) hash() string {
 	var sb strings.Builder
 	sb.WriteString(strings.Join(s.baseArgs(), "\x01"))
+	if s.All {
+		sb.WriteString("\x01--all")
+	}
 	for i := range s.Lines {
 		sb.WriteString(s.Lines[i].Text())
 		sb.WriteByte('\n')
